@@ -28,8 +28,28 @@ class U(object):
         return "U(%r,%r)" % (self.k, self.tag)
 
 
+class Q(object):
+    """values that compare equal (same group) yet are distinguishable and map to different keys"""
+
+    def __init__(self, grp, k):
+        self.grp = grp
+        self.k = k
+
+    def __eq__(self, other):
+        return isinstance(other, Q) and other.grp == self.grp
+
+    def __ne__(self, other):
+        return not self.__eq__(other)
+
+    def __hash__(self):
+        return hash(("Q", self.grp))
+
+    def __repr__(self):
+        return "Q(%r,%r)" % (self.grp, self.k)
+
+
 def keyfn(x):
-    return x.k if isinstance(x, U) else x
+    return x.k if isinstance(x, (U, Q)) else x
 
 
 def pred_sync(x):
@@ -38,7 +58,8 @@ def pred_sync(x):
 
 
 def strategy(tier):
-    elem = st.one_of(st.integers(-3, 3), st.integers(-3, 3), st.tuples(st.just("U"), st.integers(-2, 2), st.integers(0, 99)).map(list), st.none())
+    elem = st.one_of(st.integers(-3, 3), st.integers(-3, 3), st.tuples(st.just("U"), st.integers(-2, 2), st.integers(0, 99)).map(list),
+                    st.tuples(st.just("Q"), st.integers(0, 1), st.integers(-2, 2)).map(list), st.none())
     return st.fixed_dictionaries({"xs": st.lists(elem, max_size=8 if tier == "quick" else 14), "kind": st.sampled_from(["list", "tuple", "iter"]),
                                   "blocking": st.sampled_from([False, True, True, "mixed"]), "reverse": st.booleans(), "helper": st.sampled_from(HELPERS)})
 
@@ -56,7 +77,7 @@ def check(case, ctx):
     engine.reset_process_state()
     env = engine.Env({"root": {"id": 0, "body": []}, "prio": {}})
     blocking, reverse, helper, kind = case["blocking"], case["reverse"], case["helper"], case["kind"]
-    xs = [U(e[1], e[2]) if isinstance(e, list) else e for e in case["xs"]]
+    xs = [(U if e[0] == "U" else Q)(e[1], e[2]) if isinstance(e, list) else e for e in case["xs"]]
     calls = []
 
     def rounds(x):
@@ -89,7 +110,7 @@ def check(case, ctx):
     elif helper == "afilter":
         got, exp = outcome(lambda: afilter(pred, it())), outcome(lambda: list(filter(pred_sync, xs)))
     elif helper == "afilter_none":
-        ys = [x for x in xs if not isinstance(x, U)]
+        ys = [x for x in xs if not isinstance(x, (U, Q))]
         got, exp = outcome(lambda: afilter(None, {"list": list, "tuple": tuple, "iter": iter}[kind](ys))), outcome(lambda: list(filter(None, ys)))
         expect_flush = 0
     elif helper == "afilterfalse":
@@ -143,7 +164,7 @@ def check(case, ctx):
     def ids(z):
         if isinstance(z, (list, tuple)):
             return [ids(e) for e in z]
-        return ("U", id(z)) if isinstance(z, U) else z
+        return ("U", id(z)) if isinstance(z, (U, Q)) else z
 
     def norm(o):
         return o if o[0] != "ok" else ["ok", ids(o[1])]
@@ -160,6 +181,7 @@ def check(case, ctx):
     ctx.label("helper=" + helper)
     ctx.label("one-shot-iterator", kind == "iter")
     ctx.label("duplicate-keys", dup)
+    ctx.label("equal-but-distinct-elements", len([x for x in xs if isinstance(x, Q)]) >= 2)
     ctx.label("exception-agreed", got[0] == "exc" and not viol)
     ctx.label("blocking", blocking is True)
     ctx.label("element-dependent-blocking", blocking == "mixed")
@@ -192,6 +214,8 @@ def retry_cells(tier):
                 for spec in ["single", "tuple"]:
                     for blocking in [False, True]:
                         out.append({"k": k, "max_tries": mt, "other_at": other_at, "spec": spec, "blocking": blocking})
+                    # two invocations of the one decorated function in flight together (their attempts interleave at the flushes)
+                    out.append({"k": k, "max_tries": mt, "other_at": other_at, "spec": spec, "blocking": True, "concurrent": True})
     return out
 
 
@@ -213,7 +237,6 @@ def check_retry(case, ctx):
     engine.reset_process_state()
     env = engine.Env({"root": {"id": 0, "body": []}, "prio": {}})
     k, mt, other_at, spec, blocking = case["k"], case["max_tries"], case["other_at"], case["spec"], case["blocking"]
-    runs = []
     seen_args = []
     viol = []
     try:
@@ -227,12 +250,15 @@ def check_retry(case, ctx):
     if mt < 1:
         return [("C14.aretry", "aretry(max_tries=%d) was accepted" % mt)]
 
+    concurrent = bool(case.get("concurrent"))
+    runs = {1: [], 2: []}
+
     @deco
     @A()
     def body(a, b=2):
-        runs.append(1)
+        runs[a].append(1)
         seen_args.append((a, b))
-        n = len(runs) - 1
+        n = len(runs[a]) - 1
         if blocking:
             yield engine.HItem(env, "a", 0, "ok", n)
         if other_at is not None and n == other_at:
@@ -240,7 +266,23 @@ def check_retry(case, ctx):
         if n < k:
             raise (L2 if spec == "tuple" and n % 2 else L1)(n)
         return ["done", n]
-    got = outcome(lambda: body(1, b=5))
+
+    @A()
+    def one(a):
+        try:
+            v = yield body.asynq(a, b=5)
+            return ["ok", v]
+        except Exception as e:
+            return ["exc", type(e).__name__]
+
+    @A()
+    def both():
+        r = yield [one.asynq(1), one.asynq(2)]
+        return r
+    if concurrent:
+        gots = both()
+    else:
+        gots = [outcome(lambda: body(1, b=5))]
     m_runs, res = 0, None
     for i in range(mt):
         m_runs += 1
@@ -253,10 +295,13 @@ def check_retry(case, ctx):
             continue
         res = ["ok", ["done", i]]
         break
-    if (got, len(runs)) != (res, m_runs):
-        viol.append(("C14.aretry", "aretry(%s, max_tries=%d): first %d attempts raise a listed exception%s -> %r after %d runs; expected %r after %d runs" % (spec, mt, k, "" if other_at is None else ", attempt %d raises an unlisted one" % other_at, got, len(runs), res, m_runs)))
-    if any(a != (1, 5) for a in seen_args):
+    for inv, got in enumerate(gots, 1):
+        if (got, len(runs[inv])) != (res, m_runs):
+            viol.append(("C14.aretry", "aretry(%s, max_tries=%d)%s: first %d attempts raise a listed exception%s -> %r after %d runs; expected %r after %d runs" % (spec, mt, " (invocation %d of 2 running together)" % inv if concurrent else "", k, "" if other_at is None else ", attempt %d raises an unlisted one" % other_at, got, len(runs[inv]), res, m_runs)))
+            break
+    if any(ab[1] != 5 for ab in seen_args):
         viol.append(("C14.aretry", "arguments were not passed through on every attempt: %r" % (seen_args,)))
+    ctx.label("two-invocations-in-flight", concurrent)
     ctx.label("retried", m_runs >= 2)
     ctx.label("exhausted", res is not None and res[0] == "exc" and res[1] != "Other")
     ctx.nontrivial(case)
